@@ -226,6 +226,10 @@ def conn_script(rng, c, attach, big=False, overflow=None):
             pk.append(cq.pop(0))
         else:
             pk.append(sq.pop(0))
+    if mode == 'full' and len(pk) > 4 and rng.random() < 0.3:
+        # a late duplicate of the SYN or of the SYN|ACK (a retransmission overtaken by the data): it opens nothing and rewinds nothing
+        dup = dict(pk[0]) if rng.random() < 0.5 else dict(next(p for p in pk if p['flags'] & SYN and p['flags'] & ACK))
+        pk.insert(rng.randrange(4, len(pk) + 1), dup)
     end_c, end_s = streams[True][1], streams[False][1]
     close = rng.choice(['fin', 'fin', 'rst_c', 'rst_s', 'open', 'fin_one', 'fin_rst', 'fin_rst'])
     if close == 'fin':
@@ -396,6 +400,40 @@ def run(ctx):
             if bad:
                 ctx.violation('shipped limits (%d chunks, %d bytes): %s' % (dflt[1], dflt[2], bad[0][:300]),
                               '=== replay\n' + '\n'.join(l[:200] for l in hl) + '\n--- ' + bad[0][:2000] + '\n', has_input=True)
+    # a follower whose user registered no termination callback: connections over the limits or idle too long are dropped all the same
+    # (judged against the reference connection table with its termination reports left out; outside the Coq model's script interface)
+    nt = []
+    for i in range(40 if quick else 600):
+        (sid_, lines_), _m = gen_case(rng, 'n%d' % i, quick)
+        t0 = lines_[0].split()
+        nt.append(('n%d' % i, [' '.join(t0[:5] + ['0', '1'])] + lines_[1:]))
+    nh = C.run_harness('h_sf', nt)
+    ctx.cov['evaluations'] += len(nt)
+    for sid_, lines_ in nt:
+        lh_ = [l for l in nh.get(sid_, []) if not l.startswith('!~')]
+        cfg_ = tuple(int(x) for x in lines_[0].split()[1:5])
+        ref_ = RefFollower(*cfg_)
+        bad_ = None
+        for i_, l_ in enumerate(lines_[1:], 1):
+            t_ = l_.split()
+            got_l = lh_[i_] if i_ < len(lh_) else '<missing>'
+            if got_l.startswith('E ') or got_l.startswith('!!') or got_l == '<missing>':
+                bad_ = 'line %d: %s' % (i_, got_l); break
+            if t_[0] == 'pkt':
+                p_ = {'src': bytes.fromhex(t_[1][1:]), 'dst': bytes.fromhex(t_[2][1:]), 'sport': int(t_[3]), 'dport': int(t_[4]), 'flags': int(t_[5]),
+                      'seq': int(t_[6]), 'ack': int(t_[7]), 'data': None if t_[8] == '-1' else bytes.fromhex(t_[8][1:]), 'ts': int(t_[9])}
+                e_ = [x for x in canon(ref_.packet(p_)) if x[0] != 'term']
+                g_ = canon(parse_events(got_l))
+                if g_ != e_:
+                    bad_ = 'no termination callback registered; packet %d (%s): callbacks %s, the reference connection table (terminations not reported) predicts %s' % (i_, l_[:100], g_, e_); break
+            elif t_[0] == 'live':
+                live_ = sorted(c.name() for c in ref_.conns.values())
+                gl_ = sorted((x[0][1:], int(x[1]), x[2][1:], int(x[3])) for x in (y.split() for y in re.findall(r'\[([^\[\]]*)\]', got_l)))
+                if gl_ != live_:
+                    bad_ = 'no termination callback registered: still tracked %s, the reference says %s' % (gl_, live_); break
+        if bad_:
+            ctx.violation(bad_[:400], '=== replay\n' + '\n'.join(lines_) + '\n--- ' + bad_ + '\n--- C++ output\n' + '\n'.join(l[:300] for l in lh_) + '\n')
+            break
     C.differential(ctx, 'sf', 'h_sf', scripts, oracle=oracle, runner_ok=runner_ok, known=known_fn,
                    nontrivial=lambda lines, lh: any('[3 ' in l or '[5 ' in l for l in lh))
     ctx.cov['rule'] = ('1..13 simultaneous connections chosen to differ minimally (one port, swapped hosts, same host, IPv6 addresses sharing their leading bytes with an IPv4 one), '
